@@ -158,10 +158,14 @@ def temperature(rng) -> float:
     r = rng.random()
     if r < 0.1:
         return (rng.choice([500, 0, 2000, 499, 501, 1499]) - 500) / 10
+    if r < 0.3:
+        return (rng.randint(0, 2000) - 500) / 10  # anywhere in the documented range (-50.0 .. 150.0)
     return (rng.randint(400, 1100) - 500) / 10
 
 
 def timer(rng) -> dict:
+    if rng.random() < 0.08:
+        return {"disabled": rng.random() < 0.5, "hour": 0, "minute": 0}  # midnight: the value an unprogrammed timer holds
     return {"disabled": rng.random() < 0.5, "hour": rng.randint(0, 23), "minute": rng.randint(0, 59)}
 
 
